@@ -149,9 +149,23 @@ func computeDelta() {
 func DeltaThreshold(eco string, lo, hi uint64) uint64 {
 	var best uint64
 	for _, pkg := range []string{eco, "vers"} {
+		var vals []uint64
 		for _, n := range newNums[pkg] {
-			if v, err := strconv.ParseUint(n, 10, 64); err == nil && v >= lo && v <= hi && v > best {
-				best = v
+			if v, err := strconv.ParseUint(n, 10, 64); err == nil && v >= 2 && v <= hi {
+				vals = append(vals, v)
+				if v >= lo && v > best {
+					best = v
+				}
+			}
+		}
+		// a capacity written as a product (64 shards x 32768 slots): products of two new literals count as well
+		if len(vals) <= 400 {
+			for i, a := range vals {
+				for _, b := range vals[i:] {
+					if p := a * b; p >= lo && p <= hi && p > best {
+						best = p
+					}
+				}
 			}
 		}
 	}
